@@ -969,6 +969,20 @@ func ruleMapMade(c *Ctx) {
 			if f == nil || !lazy[f] {
 				continue
 			}
+			// a write inside a loop that ranges over the very map it writes: a nil map has no turn
+			ranged := false
+			if h := innermostLoopHeader(mu.Block()); h != nil {
+				for _, hin := range fn.Blocks {
+					for _, in2 := range hin.Instrs {
+						if rg, ok := in2.(*ssa.Range); ok && rg.X == mu.Map && rg.Block().Dominates(mu.Block()) {
+							ranged = true
+						}
+					}
+				}
+			}
+			if ranged {
+				continue
+			}
 			n++
 			c.inst(1)
 			// backward search: is there a path from the entry to mu that neither makes the member nor finds it non-nil?
